@@ -43,13 +43,15 @@ func VerifEvents() {
 		}
 		n := verifChoice("events"+verifItoa(i), verifParam("maxevents", 2)+1)
 		for e := 0; e < n; e++ {
-			switch verifChoice("ev"+verifItoa(i)+"_"+verifItoa(e), 3) {
+			switch verifChoice("ev"+verifItoa(i)+"_"+verifItoa(e), 4) {
 			case 0:
 				subs[i].events = append(subs[i].events, "h1")
 			case 1:
 				subs[i].events = append(subs[i].events, "h2")
 			case 2:
 				subs[i].events = append(subs[i].events, "")
+			case 3:
+				subs[i].events = append(subs[i].events, "partial:h1") // data next to errors
 			}
 		}
 	}
@@ -80,9 +82,17 @@ func VerifEvents() {
 				return
 			}
 			w := vSubWorld()
+			partial := len(ev) > 8 && ev[:8] == "partial:"
+			if partial {
+				ev = ev[8:]
+			}
 			w.roots["Subscription.humanChanged"] = vRef{"Human", ev}
 			data := vEval(svc.schema, w, doc.Operations[0].SelectionSet, "Subscription", nil, nil)
-			if !up.vSend(vServerData("1", data)) {
+			msg := vServerData("1", data)
+			if partial {
+				msg, _ = json.Marshal(map[string]interface{}{"type": "data", "id": "1", "payload": map[string]interface{}{"data": data, "errors": []interface{}{map[string]interface{}{"message": "partial " + subs[n].id}}}})
+			}
+			if !up.vSend(msg) {
 				return
 			}
 		}
@@ -138,6 +148,19 @@ func VerifEvents() {
 				if len(errs) > 0 {
 					e0, _ := errs[0].(map[string]interface{})
 					verifAssert(e0["message"] == "upstream error "+s.id, "an upstream error keeps its message and its subscription")
+				}
+				continue
+			}
+			if len(ev) > 8 && ev[:8] == "partial:" {
+				// an event that carries errors next to data is forwarded with its errors, and what it
+				// shows of the data never includes helper fields the client did not select
+				errs, _ := p["errors"].([]interface{})
+				verifAssert(len(errs) > 0, "the errors of a partial event are forwarded")
+				if d, ok := p["data"].(map[string]interface{}); ok {
+					if hc, ok := d["humanChanged"].(map[string]interface{}); ok {
+						_, hasID := hc["id"]
+						verifAssert(!hasID, "helper fields are removed from partial events too")
+					}
 				}
 				continue
 			}
